@@ -17,7 +17,7 @@ R_OSSEND = Rule("B5", r"Ok\(self\.os_sender\.send\(\s*(&bytes\[\.\.\]),\s*(\w+),
 R_OSSEND2 = AppendArg("B5b", r"self\.os_sender\.send\(", "tls", "platform send (unit U2) seen without the `?` (explicit match + From::from): stub that logs what it was handed")
 R_DESER = AppendArg("B7", r"bincode::deserialize\(", "tls", "dependency: bincode + the user's Deserialize impls", rename="bincode_deserialize")
 R_SER_USIZE = Rule("D6a", r"\bindex\.serialize\(serializer\)", "serialize_usize(index, serializer)", "serde: usize::serialize")
-R_DE_USIZE = Rule("D6b", r"Deserialize::deserialize\(deserializer\)", "deserialize_usize(deserializer)", "serde: usize::deserialize (any value)")
+R_DE_USIZE = Rule("D6b", r"Deserialize::deserialize\(deserializer\)", "deserialize_usize(deserializer, tls)", "serde: usize::deserialize (any value; recorded in a ghost log)")
 R_DE_CUSTOM = Rule("D6c", r"\bD::Error::custom\(", "de_error_custom::<D>(", "serde::de::Error::custom")
 R_SERIALIZE_TAIL = Rule("D6d", r"\}\s*\.serialize\(serializer\)", "}.ser(serializer)", "usize::serialize on a block expression")
 
@@ -76,6 +76,9 @@ de_sender = Fn(F, ["deserialize_os_ipc_sender"], ret="r", extra_params=TLS,
         Clause("ipc.deserialize_os_ipc_sender/ensures.endpoint_is_this_messages_attachment",
                "r matches Ok(s) ==> exists|i: int| 0 <= i < old(tls).de_channels@.len() && (#[trigger] old(tls).de_channels@[i]) is Some\n"
                "    && s.fd.0 == old(tls).de_channels@[i]->0.fd && final(tls).de_channels@ == old(tls).de_channels@.update(i, None)", ["C16", "C04"]),
+        Clause("ipc.deserialize_os_ipc_sender/ensures.claimed_slot_is_the_decoded_index",
+               "r matches Ok(s) ==> final(tls).decoded.len() == old(tls).decoded.len() + 1 && final(tls).decoded.last() < old(tls).de_channels@.len()\n"
+               "&& old(tls).de_channels@[final(tls).decoded.last() as int] is Some && s.fd.0 == old(tls).de_channels@[final(tls).decoded.last() as int]->0.fd", ["C16", "C04"]),
         Clause("ipc.deserialize_os_ipc_sender/ensures.error_leaves_the_table_alone", "r is Err ==> final(tls).de_channels@ == old(tls).de_channels@", ["C16"]),
         Clause("ipc.deserialize_os_ipc_sender/ensures.step", "de_step(*old(tls), *final(tls))", ["C14", "C16"]),
     ],
@@ -88,6 +91,9 @@ de_receiver = Fn(F, ["deserialize_os_ipc_receiver"], ret="r", extra_params=TLS,
         Clause("ipc.deserialize_os_ipc_receiver/ensures.endpoint_is_this_messages_attachment",
                "r matches Ok(s) ==> exists|i: int| 0 <= i < old(tls).de_channels@.len() && (#[trigger] old(tls).de_channels@[i]) is Some\n"
                "    && cell_val(&s.fd) == old(tls).de_channels@[i]->0.fd && final(tls).de_channels@ == old(tls).de_channels@.update(i, None)", ["C16", "C04"]),
+        Clause("ipc.deserialize_os_ipc_receiver/ensures.claimed_slot_is_the_decoded_index",
+               "r matches Ok(s) ==> final(tls).decoded.len() == old(tls).decoded.len() + 1 && final(tls).decoded.last() < old(tls).de_channels@.len()\n"
+               "&& old(tls).de_channels@[final(tls).decoded.last() as int] is Some && cell_val(&s.fd) == old(tls).de_channels@[final(tls).decoded.last() as int]->0.fd", ["C16", "C04"]),
         Clause("ipc.deserialize_os_ipc_receiver/ensures.error_leaves_the_table_alone", "r is Err ==> final(tls).de_channels@ == old(tls).de_channels@", ["C16"]),
         Clause("ipc.deserialize_os_ipc_receiver/ensures.step", "de_step(*old(tls), *final(tls))", ["C14", "C16"]),
     ],
@@ -99,6 +105,10 @@ shm_de = Fn(F, ["impl<'de> Deserialize<'de> for IpcSharedMemory", "deserialize"]
                "r matches Ok(m) ==> (m.os_shared_memory is None && final(tls).de_regions@ == old(tls).de_regions@)\n"
                "    || exists|i: int| 0 <= i < old(tls).de_regions@.len() && m.os_shared_memory == (#[trigger] old(tls).de_regions@[i])\n"
                "        && m.os_shared_memory is Some && final(tls).de_regions@ == old(tls).de_regions@.update(i, None)", ["C16", "C05"]),
+        Clause("ipc.IpcSharedMemory.deserialize/ensures.empty_region_only_for_the_reserved_index_claimed_slot_is_the_decoded_index",
+               "r matches Ok(m) ==> final(tls).decoded.len() == old(tls).decoded.len() + 1\n"
+               "&& (m.os_shared_memory is None ==> final(tls).decoded.last() == usize::MAX)\n"
+               "&& (m.os_shared_memory is Some ==> final(tls).decoded.last() < old(tls).de_regions@.len() && m.os_shared_memory == old(tls).de_regions@[final(tls).decoded.last() as int])", ["C16", "C05"]),
         Clause("ipc.IpcSharedMemory.deserialize/ensures.step", "de_step(*old(tls), *final(tls))", ["C14", "C16"]),
     ],
     rules=[T_DE_RG, R_DE_USIZE, R_DE_CUSTOM,
@@ -162,6 +172,7 @@ UNIT = Unit(
             ("impl IpcSharedMemory", [shm_de, shm_ser])],
     props=["C01", "C03", "C04", "C05", "C09", "C10", "C11", "C14", "C16", "C18"],
     prelude_clauses={
+        "ipc.IpcSender.send/requires.serialisation_starts_from_empty_attachment_lists": ["C14", "C04", "C05"],
         "unix.OsOpaqueIpcChannel.to_sender/requires.not_already_taken": ["C16"],
         "unix.OsOpaqueIpcChannel.to_receiver/requires.not_already_taken": ["C16"],
         "ipc.OpaqueIpcMessage.to/requires.decoder_bounds_allocations_by_the_input": ["C16"],
